@@ -47,6 +47,7 @@ type childResult struct {
 
 func variantsFor(prop string) []variant {
 	out := seededVariants(prop)
+	out = append(out, benignVariants(prop)...)
 	for _, v := range allVariants {
 		for _, p := range v.Props {
 			if p == prop {
